@@ -1650,11 +1650,16 @@ def mkdofpv(uset, nasset, dof, *, strict=True, grids_only=True):
 
     i = np.argsort(uset_set)
     pvi = np.searchsorted(uset_set, _dof, sorter=i)
-    # since searchsorted can return length as index:
-    pvi[pvi == i.size] -= 1
-    pv = i[pvi]
+    if i.size > 0:
+        # since searchsorted can return length as index:
+        pvi[pvi == i.size] -= 1
+        pv = i[pvi]
+        chk = uset_set[pv] != _dof
+    else:
+        # the set is empty, so all of `dof` is missing:
+        pv = pvi
+        chk = np.ones(len(_dof), bool)
 
-    chk = uset_set[pv] != _dof
     if chk.any():
         if strict:
             msg = (
